@@ -46,7 +46,10 @@ class SourceSet:
     def tree(self, rel):
         if rel not in self._tree:
             try:
-                t = ast.parse(self.text(rel), filename=rel)
+                import warnings
+                with warnings.catch_warnings():
+                    warnings.simplefilter('ignore')
+                    t = ast.parse(self.text(rel), filename=rel)
             except SyntaxError as e:
                 raise AnalysisError(f'{rel} does not parse: {e}')
             for n in ast.walk(t):
